@@ -44,6 +44,7 @@ structure Req where
   holdB : Bool := false
   holdM : Bool := false
   holdT : Bool := false
+  gen : Nat := 0          -- the connection on which its last frame was written
   deriving Repr, Inhabited
 
 inductive Out where
@@ -67,6 +68,7 @@ structure St where
   listeners : List (Nat × Nat) := []     -- (request id, key) of pending one-shot listeners, registration order
   ready : List Nat := []
   out : List Out := []
+  gen : Nat := 0                 -- connections opened so far: `connect()` makes a new protocol object
   deriving Repr, Inhabited
 
 def getReq (st : St) (i : Nat) : Option Req := st.reqs.find? (·.id == i)
@@ -158,7 +160,7 @@ def runReq : Nat → St → Nat → St
         if !ok then st' else
         if st'.transport then
           let st' := emit st' (.write i r.frag st'.pack r.nfrags)
-          updReq st' i fun r => { r with phase := .waitAck, deadline := st'.now + Gen.ackTimeoutMs }
+          updReq st' i fun r => { r with phase := .waitAck, deadline := st'.now + Gen.ackTimeoutMs, gen := st'.gen }
         else runReq fuel (updReq st' i fun r => { r with phase := .acked }) i
       | .acked =>
         let st' := release st .T i
@@ -201,6 +203,7 @@ inductive Ev where
   | close
   | lost
   | setReset (b : Bool)
+  | connect                      -- `ZBOSS.connect()` on the same object after `close()` / a loss: a new protocol object
   deriving Repr
 
 def nextDeadline (st : St) : Option Nat :=
@@ -218,9 +221,10 @@ def step (st0 : St) (e : Ev) : St :=
     settleAll st
   | .rxAck k =>
     if k = st.pack then
-      let woken := (st.reqs.filter (·.phase == .waitAck)).map (·.id)
+      -- only a sender waiting on *this* connection's protocol object is woken
+      let woken := (st.reqs.filter fun r => r.phase == .waitAck && r.gen == st.gen).map (·.id)
       let st := { st with pack := st.pack % 3 + 1,
-                          reqs := st.reqs.map fun r => if r.phase == .waitAck then { r with phase := .acked } else r,
+                          reqs := st.reqs.map fun r => if r.phase == .waitAck && r.gen == st.gen then { r with phase := .acked } else r,
                           ready := st.ready ++ woken }
       settleAll st
     else settleAll st
@@ -267,6 +271,9 @@ def step (st0 : St) (e : Ev) : St :=
     let st := if st.resetting then st else emit st .appLost
     settleAll st
   | .setReset b => { st with resetting := b }
+  | .connect =>
+    -- a fresh protocol object: its numbering starts at 0, nobody waits on it yet
+    if st.isOpen then st else { st with isOpen := true, transport := true, pack := 0, gen := st.gen + 1 }
 
 def runEvents (st : St) (evs : List Ev) : St × List (List Out) :=
   evs.foldl (fun acc e => let s := step acc.1 e; (s, acc.2 ++ [s.out])) (st, [])
